@@ -249,7 +249,7 @@ class CodedInputStream {
       }
     } else {
       if (buffer_ptr_ == buffer_end_ptr_) {
-        FillBuffer();
+        FillBuffer(false);
         if (at_eof_ && buffer_ptr_ == buffer_end_ptr_) {
           return;
         }
@@ -330,7 +330,10 @@ class CodedInputStream {
     return static_cast<int64_t>((n >> 1) ^ (~(n & 1) + 1));
   }
 
-  size_t FillBuffer() {
+  // Refills the buffer. Callers that are about to consume data need at least one
+  // byte: the stream can end exactly where the previous refill ended, in which
+  // case this read returns nothing, and that is an unexpected end of stream.
+  size_t FillBuffer(bool throw_if_empty = true) {
     if (at_eof_) {
       throw EndOfStreamException();
     }
@@ -340,6 +343,9 @@ class CodedInputStream {
     auto bytes_read = stream_.gcount();
     buffer_ptr_ = buffer_.data();
     buffer_end_ptr_ = buffer_ptr_ + bytes_read;
+    if (bytes_read == 0 && throw_if_empty) {
+      throw EndOfStreamException();
+    }
     return bytes_read;
   }
 
